@@ -81,7 +81,10 @@ CHECKS["C28"] = dict(
                "expiries and neighbour choices: invariants RecordedPathsOK, InFlightPathsOK, RelaySkipOK, BoundedMessages and the "
                "liveness property Quiescence (<>[] net = {}) under weak fairness of delivery. TLC-generated behaviours (every "
                "(state, step) edge of small configurations, random walks of larger ones) are forced on 4-5 real routetab.Service "
-               "instances with real kademlia in one process: FindRoute calls, delivery order, losses, expiries and the alpha "
+               "instances with real kademlia in one process (plus goal-directed behaviours, found breadth first by TLC on 4-node graphs with a "
+               "triangle and on 6-7-node graphs with two cycles sharing a link, in which a response returns to a node on its own path while a node "
+               "off that path still waits there: crossing searches for one target, and table answers of a node that has heard of the target's "
+               "underlay): FindRoute calls, delivery order, losses, expiries and the alpha "
                "neighbours picked are dictated by the scenario; every node's recorded paths, returned routes, sent messages and "
                "the final drain are judged by RouteDiscoveryTrace.tla",
     level_note="trusted: TLC; the harness streamer (queues every written message, plays no node), forcing of the neighbour choice "
@@ -96,29 +99,39 @@ CHECKS["C28"] = dict(
             dict(spec="MCRouteDiscovery.tla", cfg="MCRouteDiscovery_inject.cfg", workers=8, timeout=1200, thorough_only=True),
             dict(spec="MCRouteDiscovery.tla", cfg="MCRouteDiscovery_2finds.cfg", workers=8, timeout=1200, thorough_only=True),
             dict(spec="MCRouteDiscovery.tla", cfg="MCRouteDiscovery_all4.cfg", workers=8, timeout=1500, thorough_only=True),
-            dict(spec="MCRouteDiscovery.tla", cfg="MCRouteDiscovery_n5.cfg", workers=8, timeout=1200, thorough_only=True)],
+            dict(spec="MCRouteDiscovery.tla", cfg="MCRouteDiscovery_n5.cfg", workers=8, timeout=1200, thorough_only=True),
+            dict(spec="MCRouteDiscovery.tla", cfg="MCRouteDiscovery_heard.cfg", workers=8, timeout=1200, thorough_only=True)],
     gen=dict(
         quick=[dict(mode="edges", spec=_GEN, cfg="RouteDiscoveryGenRelay.cfg", depth=40, name="relay-search-after-link-change"),
                dict(mode="edges", spec=_GEN, cfg="RouteDiscoveryGenEdges.cfg", depth=30, max=60, name="edges-small4"),
                dict(mode="sim", spec=_GEN, cfg="RouteDiscoveryGenSim.cfg", depth=40, num=40, max=50, dedup=True, name="walks-iso4"),
-               dict(mode="sim", spec=_GEN, cfg="RouteDiscoveryGenSimT2.cfg", depth=40, num=15, max=20, dedup=True, salt=4, name="walks-ttl2")],   # 5-node walks: thorough tier
+               dict(mode="sim", spec=_GEN, cfg="RouteDiscoveryGenSimT2.cfg", depth=40, num=15, max=20, dedup=True, salt=4, name="walks-ttl2"),   # 5-node walks: thorough tier
+               # goal-directed (breadth first): a response returns to a node on its own path while somebody off the path still waits there
+               dict(mode="edges", spec=_GEN, cfg="RouteDiscoveryGenMerge4.cfg", depth=9, max=10, name="looped-answer-crossing-searches-4"),
+               dict(mode="edges", spec=_GEN, cfg="RouteDiscoveryGenMerge7.cfg", depth=11, max=2, name="looped-table-answer-7")],
         thorough=[dict(mode="edges", spec=_GEN, cfg="RouteDiscoveryGenRelay.cfg", depth=40, name="relay-search-after-link-change"),
                   dict(mode="edges", spec=_GEN, cfg="RouteDiscoveryGenEdges.cfg", depth=30, name="edges-small4"),
                   dict(mode="edges", spec=_GEN, cfg="RouteDiscoveryGenEdgesA1.cfg", depth=30, max=500, name="edges-iso4-a1", timeout=1200),
                   dict(mode="sim", spec=_GEN, cfg="RouteDiscoveryGenSim.cfg", depth=40, num=300, max=350, dedup=True, name="walks-iso4"),
                   dict(mode="sim", spec=_GEN, cfg="RouteDiscoveryGenSimA1.cfg", depth=50, num=150, max=170, dedup=True, salt=2, name="walks-all4-a1"),
                   dict(mode="sim", spec=_GEN, cfg="RouteDiscoveryGenSimT2.cfg", depth=40, num=100, max=120, dedup=True, salt=4, name="walks-ttl2"),
-                  dict(mode="sim", spec=_GEN, cfg="RouteDiscoveryGenSim5.cfg", depth=60, num=150, max=170, dedup=True, salt=3, name="walks-n5")]),
+                  dict(mode="sim", spec=_GEN, cfg="RouteDiscoveryGenSim5.cfg", depth=60, num=150, max=170, dedup=True, salt=3, name="walks-n5"),
+                  dict(mode="edges", spec=_GEN, cfg="RouteDiscoveryGenMerge4.cfg", depth=11, max=120, workers=4, name="looped-answer-crossing-searches-4", timeout=1200),
+                  dict(mode="edges", spec=_GEN, cfg="RouteDiscoveryGenMerge4All.cfg", depth=9, max=120, workers=8, name="looped-answer-iso4-anypair-loss", timeout=1200),
+                  dict(mode="edges", spec=_GEN, cfg="RouteDiscoveryGenMerge6.cfg", depth=10, max=80, workers=8, name="looped-table-answer-6", timeout=1200),
+                  dict(mode="edges", spec=_GEN, cfg="RouteDiscoveryGenMerge7.cfg", depth=13, max=40, workers=8, name="looped-table-answer-7", timeout=1200)]),
     judge=dict(spec="RouteDiscoveryTrace.tla", cfg="RouteDiscoveryTrace.cfg"),
     corrupt=_c28_corrupt,
     nontrivial=lambda s: any(o["op"] == "find" for o in s["ops"]) and sum(1 for o in s["ops"] if o["op"] == "deliver") >= 2,
     rule="TLC behaviours of RouteDiscovery.tla that end with an empty network: (graph, alpha, TTL) + the sequence of find / deliver / "
-         "lose / expire / cancel / inject steps with the message delivered and the neighbours picked; distinct = distinct "
+         "lose / expire / cancel / inject steps with the message delivered and the neighbours picked (goal-directed behaviours end with the "
+         "delivery of the looped response, the driver delivers the rest oldest first); distinct = distinct "
          "(configuration, step sequence); non-trivial = at least one FindRoute and two deliveries",
     exhaustive=dict(quick=False, thorough=False),
     assumptions=["honest nodes: every message in flight was produced by a real routetab.Service (relayed streams enter with an honest one- or two-hop path)",
                  "the neighbour relation changes only while no message is in flight; recorded paths are judged against every link that existed during the scenario",
                  "kademlia's neighbourhood depth is 0 in these small networks (logged per scenario)",
+                 "a node knows the underlay of its neighbours, of former neighbours, of targets whose answer passed through it, and of the nodes the scenario says it has heard of (par.heard: address book entry only)",
                  "the bound on messages is MsgBound = finds * sum_{k=1..TTL+1} alpha^k * (2+alpha) + injects * |nodes|"],
     driver_timeout=1500,
 )
@@ -150,7 +163,7 @@ def _c38_corrupt(evs):
                 if g["ex"]:
                     g["conn"] = sorted(set(g["conn"]) | {97})
                     return i
-        if e.get("kind") == "flood" and e.get("op") == "deliver" and e.get("notified"):
+        if e.get("kind") == "flood" and e.get("op") in ("deliver", "begin") and e.get("notified"):
             e["notified"] = e["notified"] + e["notified"]
             return i
     return None
@@ -166,16 +179,20 @@ CHECKS["C38"] = dict(
     level_text="TLC exhausts Multicast.tla: membership over 2-3 peers x 1-2 groups (invariant MembershipOK: lists pairwise disjoint, "
                "connected subset of neighbours; prune bound) and flooding on the six connected 4-node overlays (thorough: every overlay on 3 "
                "nodes, any subset joined, two messages, window expiry, loss) for DeliveredAtMostOncePerWindow, ForwardedAtMostOncePerWindow, "
-               "NotBackToSender, FloodBounded and the liveness property FloodQuiesces. TLC-generated membership histories run on one real "
+               "NotBackToSender, FloodBounded and the liveness property FloodQuiesces, also with every receive handler split into two steps "
+               "(begin: claim + hand to the subscribers, finish: forward) so that handlers of several copies overlap at a node. TLC-generated membership histories run on one real "
                "Service (notify and handshake handlers, outgoing handshake, disconnect events, bare transitions, fills over the real "
                "threshold of 20); TLC-generated flooding behaviours are forced on 3-4 real Services in one process, each with its own "
-               "instance of the package-global cache; every step is judged by MulticastTrace.tla",
+               "instance of the package-global cache (two-step handlers: the streamer holds the handler up at its first outgoing stream until the "
+               "scenario's finish step, other handlers of the same node run in between); every step is judged by MulticastTrace.tla",
     level_note="trusted: TLC; harness streamer / SubPub recorder / route-table fake (IsNeighbor) / wrapped kademlia mock; the verif "
                "accessor of the three lists; per-node cache instances selected through the hook (production: one process per node); "
                "window expiry is bound to clearing the node's cache (the one-minute constant is not waited for). Not modelled: "
                "forwarding through other groups when a node does not hold the group (getForwardNodes), discovery (findGroup), gcGroup",
     design=[dict(spec="MCMulticast.tla", cfg="MCMulticastMemberQ.cfg", workers=8, timeout=900),
             dict(spec="MCMulticast.tla", cfg="MCMulticastFlood.cfg", workers=8, timeout=900),
+            dict(spec="MCMulticast.tla", cfg="MCMulticastFloodSplit.cfg", workers=8, timeout=900),
+            dict(spec="MCMulticast.tla", cfg="MCMulticastFloodSplit4.cfg", workers=8, timeout=1200, thorough_only=True),
             dict(spec="MCMulticast.tla", cfg="MCMulticastMember.cfg", workers=8, timeout=1200, thorough_only=True),
             dict(spec="MCMulticast.tla", cfg="MCMulticastMember3.cfg", workers=8, timeout=1200, thorough_only=True),
             dict(spec="MCMulticast.tla", cfg="MCMulticastFlood3.cfg", workers=8, timeout=1200, thorough_only=True)],
@@ -185,26 +202,32 @@ CHECKS["C38"] = dict(
                dict(mode="sim", spec=_MG, cfg="MulticastGenMemberSim.cfg", depth=12, num=8, max=60, name="member-walks"),
                dict(mode="sim", spec=_MG, cfg="MulticastGenFill.cfg", depth=8, num=4, max=25, salt=1, name="member-fill"),
                dict(mode="edges", spec=_MG, cfg="MulticastGenFloodEdges.cfg", depth=7, max=80, name="flood-edges"),
-               dict(mode="sim", spec=_MG, cfg="MulticastGenFloodSim.cfg", depth=40, num=60, max=60, dedup=True, salt=2, name="flood-walks")],
+               dict(mode="sim", spec=_MG, cfg="MulticastGenFloodSim.cfg", depth=40, num=60, max=60, dedup=True, salt=2, name="flood-walks"),
+               # receive handlers in two steps (begin / finish): the handlers of two copies of a message overlap at a node of a cycle
+               dict(mode="edges", spec=_MG, cfg="MulticastGenFloodSplitEdges.cfg", depth=14, max=40, name="flood-overlap-edges-triangle")],
         thorough=[dict(mode="edges", spec=_MG, cfg="MulticastGenMemberEdges0.cfg", depth=8, name="member-edges-1peer-1group"),
                   dict(mode="edges", spec=_MG, cfg="MulticastGenMemberEdges1.cfg", depth=6, max=3000, name="member-edges-1group", timeout=1200),
                   dict(mode="edges", spec=_MG, cfg="MulticastGenMemberEdges.cfg", depth=3, max=500, name="member-edges", timeout=1200),
                   dict(mode="sim", spec=_MG, cfg="MulticastGenMemberSim.cfg", depth=20, num=20, max=400, name="member-walks"),
                   dict(mode="sim", spec=_MG, cfg="MulticastGenFill.cfg", depth=12, num=15, max=150, salt=1, name="member-fill"),
                   dict(mode="edges", spec=_MG, cfg="MulticastGenFloodEdges.cfg", depth=20, max=700, name="flood-edges", timeout=1200),
-                  dict(mode="sim", spec=_MG, cfg="MulticastGenFloodSim.cfg", depth=50, num=600, max=600, dedup=True, salt=2, name="flood-walks")]),
+                  dict(mode="sim", spec=_MG, cfg="MulticastGenFloodSim.cfg", depth=50, num=600, max=600, dedup=True, salt=2, name="flood-walks"),
+                  dict(mode="edges", spec=_MG, cfg="MulticastGenFloodSplitEdges.cfg", depth=14, name="flood-overlap-edges-triangle"),
+                  dict(mode="edges", spec=_MG, cfg="MulticastGenFloodSplitEdges4.cfg", depth=24, max=400, workers=4, name="flood-overlap-edges-cyclic4", timeout=1200),
+                  dict(mode="sim", spec=_MG, cfg="MulticastGenFloodSplitSim.cfg", depth=60, num=300, max=300, dedup=True, salt=3, name="flood-overlap-walks")]),
     post_gen=_c38_post,
     judge=dict(spec="MulticastTrace.tla", cfg="MulticastTrace.cfg"),
     corrupt=_c38_corrupt,
     nontrivial=lambda s: (s.get("par", {}).get("kind") == "member" and sum(1 for o in s["ops"] if o["op"] in ("notify", "handshake", "add", "remove", "nbrdown", "event", "fill")) >= 2)
-                         or (s.get("par", {}).get("kind") == "flood" and any(o["op"] == "deliver" for o in s["ops"])),
+                         or (s.get("par", {}).get("kind") == "flood" and any(o["op"] in ("deliver", "begin") for o in s["ops"])),
     rule="membership: TLC histories of connect/nbrdown/event/notify/handshake(in,out)/add/remove/prune/fill (every (source state, step) edge of 1 peer x 1 group, sampled edges of 2 peers x 1 group, edges over 2 peers x 2 groups, "
          "walks over 3 peers x 2 groups, fills around the threshold 20); flooding: TLC behaviours (overlay, joined set, originations, "
-         "delivery order, losses, window expiries) ending with an empty network; distinct = distinct (parameters, step sequence); "
+         "delivery order or begin/finish order of overlapping handlers, losses, window expiries) ending with an empty network; distinct = distinct (parameters, step sequence); "
          "non-trivial = two membership-changing steps, resp. at least one delivery",
     exhaustive=dict(quick=False, thorough=False),
     assumptions=["a neighbour going away is two steps: the route table stops listing it (nbrdown), later the service handles the queued peer-state event (event); 'connected peers are neighbours' is judged up to queued events",
                  "window expiry = the node's de-duplication cache is emptied",
-                 "every node of a flooding scenario holds the group (joined or observing)"],
+                 "every node of a flooding scenario holds the group (joined or observing)",
+                 "a receive handler can be held up only at an outgoing stream (its cache operations and the hand-over to the subscribers are not interleaved further); no window expiry while a handler is held up"],
     driver_timeout=1500,
 )
